@@ -15,6 +15,8 @@ HEADS = {
     "prov#": "http://www.w3.org/ns/prov#",
     "xsd#": "http://www.w3.org/2001/XMLSchema#",
     "xsi": "http://www.w3.org/2001/XMLSchema-instance",
+    "xsd": "http://www.w3.org/2001/XMLSchema",      # PROV-XML's spelling of the XSD namespace
+    "xml": "http://www.w3.org/XML/1998/namespace",
 }
 # path steps that may follow a head inside a namespace URI
 PATH = {"b": "b/"}
